@@ -627,4 +627,212 @@ theorem nodeRev_none_term {S : Schema} (K : KeyOrder S) {c : DNode} {n : Nat} {h
   apply normN_term_eq (by simpa using hxt) hxt (by simp) (by simp)
   rw [dflt_setDflt, hcd]
 
+/-! ## inner nodes with operation `none`, and sibling lists -/
+
+theorem exactE_none_inner {S : Schema} {inh : Option Op} {e : Option DNode} {s : Nat} {f : Flags} {m : List Meta}
+    {ks : List DNode} (h : exactE S inh e (.inner s f m ks) = true) (hop : effOp inh (.inner s f m ks) = some .none) :
+    ∃ x, e = some x ∧ (noKeys S ks).isEmpty = false ∧ exactK S (childInh inh (.inner s f m ks)) x.kids true ks = true := by
+  simp only [exactE, Bool.and_eq_true, hop] at h
+  cases e with
+  | none => simp at h
+  | some x =>
+    simp only [Bool.and_eq_true, Bool.not_eq_eq_eq_not, Bool.not_true] at h
+    exact ⟨x, rfl, h.2.1, h.2.2⟩
+
+theorem revNode_key {S : Schema} {inh : Option Op} {c : DNode} (hk : S.isKey c.sid = true) : revNode S inh c = .ok c := by
+  cases c <;> simp only [DNode.sid] at hk <;> simp [revNode, hk]
+
+theorem dk_cons_key {S : Schema} {c : DNode} {cs : List DNode} (hk : S.isKey c.sid = true) :
+    dk S true (c :: cs) = dk S true cs := by
+  simp [dk, noKeys, List.dropWhile_cons, hk]
+
+theorem dk_cons_nokey {S : Schema} {c : DNode} {cs : List DNode} (hk : S.isKey c.sid = false) (ld : Bool) :
+    dk S ld (c :: cs) = c :: cs := by
+  cases ld <;> simp [dk, noKeys, List.dropWhile_cons, hk]
+
+theorem keysOf_cons_key {S : Schema} {c : DNode} {cs : List DNode} (hk : S.isKey c.sid = true) :
+    keysOf S (c :: cs) = c :: keysOf S cs := by
+  simp [keysOf, List.takeWhile_cons, hk]
+
+theorem keysOf_cons_nokey {S : Schema} {c : DNode} {cs : List DNode} (hk : S.isKey c.sid = false) :
+    keysOf S (c :: cs) = [] := by
+  simp [keysOf, List.takeWhile_cons, hk]
+
+/-- what `exactK` says about every applied child -/
+theorem exactK_mem {S : Schema} {inh : Option Op} {L : List DNode} : ∀ (ld : Bool) (cs : List DNode),
+    exactK S inh L ld cs = true → ∀ c ∈ dk S ld cs, exactE S inh (look S L c) c = true ∧ KeysBelow S c L
+  | _, [], _ => by
+    intro c hc
+    cases ‹Bool› <;> simp [dk, noKeys] at hc
+  | ld, c :: cs, h => by
+    unfold exactK at h
+    split at h
+    · rename_i hlk
+      simp only [Bool.and_eq_true] at hlk
+      obtain ⟨rfl, hk⟩ := hlk
+      rw [dk_cons_key hk]
+      exact exactK_mem true cs h
+    · rename_i hlk
+      simp only [Bool.and_eq_true] at h
+      obtain ⟨⟨⟨hE, hkb⟩, hdist⟩, hrest⟩ := h
+      have hk : S.isKey c.sid = false := (exactE_base hE).2.2
+      rw [dk_cons_nokey hk]
+      intro c' hc'
+      rcases List.mem_cons.mp hc' with rfl | hc'
+      · refine ⟨hE, ?_⟩
+        intro k hkm
+        have := List.all_eq_true.mp hkb k hkm
+        simpa using this
+      · have := exactK_mem false cs hrest c' (by simpa [dk] using hc')
+        exact this
+
+theorem exactK_congr {S : Schema} {inh : Option Op} {L L' : List DNode} (hk : keysOf S L' = keysOf S L) :
+    ∀ (ld : Bool) (cs : List DNode), (∀ c ∈ cs, look S L' c = look S L c) → exactK S inh L' ld cs = exactK S inh L ld cs
+  | _, [], _ => by simp [exactK]
+  | ld, c :: cs, h => by
+    unfold exactK
+    have hc : L'.find? (matchP S c) = L.find? (matchP S c) := h c (List.mem_cons_self ..)
+    rw [hc, hk, exactK_congr hk true cs (fun c' hc' => h c' (List.mem_cons_of_mem _ hc')),
+      exactK_congr hk false cs (fun c' hc' => h c' (List.mem_cons_of_mem _ hc'))]
+
+/-- `matchP` looks at the diff node's schema node, value and list keys (up to `normN`) only -/
+theorem matchP_of_same_keys {S : Schema} {d d' : DNode} (hd : S.isDupInst d.sid = false) (h1 : d'.sid = d.sid)
+    (h2 : d'.val = d.val) (h3 : normL (keysOf S d'.kids) = normL (keysOf S d.kids)) (x : DNode) :
+    matchP S d' x = matchP S d x := by
+  simp only [matchP, h1, instMatch, hd, sameInst, h2]
+  have : keysEq (keysOf S x.kids) (keysOf S d'.kids) = keysEq (keysOf S x.kids) (keysOf S d.kids) := by
+    rw [← keysEq_normL, h3, keysEq_normL]
+  simp [this]
+
+theorem matchP_setKids {S : Schema} (K : KeyOrder S) {x : DNode} {ks : List DNode} (hx : Dom S x)
+    (h : keysOf S ks = keysOf S x.kids) (hi : x.isTerm = false) : matchP S x (x.setKids ks) = true := by
+  have h0 := matchP_refl K hx
+  simp only [matchP, instMatch, hx.ndi, sameInst, sid_setKids, kids_setKids_inner hi, h] at h0 ⊢
+  cases x with
+  | term => simp [DNode.isTerm] at hi
+  | inner s f m k => simpa [DNode.setKids, DNode.val] using h0
+
+theorem normN_setKids_inner {x : DNode} {ks : List DNode} (hi : x.isTerm = false) (h : normL ks = normL x.kids) :
+    normN (x.setKids ks) = normN x := by
+  cases x with
+  | term => simp [DNode.isTerm] at hi
+  | inner s f m k => simp [DNode.setKids, normN, DNode.kids] at h ⊢; exact h
+
+theorem revL_cons {S : Schema} {inh : Option Op} {c c' : DNode} {cs R : List DNode} (h1 : revNode S inh c = .ok c')
+    (h2 : revL S inh cs = .ok R) : revL S inh (c :: cs) = .ok (c' :: R) := by
+  simp [revL, h1, h2]
+
+theorem kids_inner (s : Nat) (f : Flags) (m : List Meta) (ks : List DNode) : (DNode.inner s f m ks).kids = ks := rfl
+
+theorem ownOp_congr_metas {d d' : DNode} (h : d'.metas = d.metas) : ownOp d' = ownOp d := by
+  simp only [ownOp, getMeta_def, h]
+
+theorem effOp_congr_metas {inh : Option Op} {d d' : DNode} (h : d'.metas = d.metas) : effOp inh d' = effOp inh d := by
+  simp only [effOp, ownOp_congr_metas h]
+
+theorem childInh_congr_metas {inh : Option Op} {d d' : DNode} (h : d'.metas = d.metas) :
+    childInh inh d' = childInh inh d := by
+  simp only [childInh, ownOp_congr_metas h]
+
+theorem height_inner_le {s : Nat} {f : Flags} {m : List Meta} {ks : List DNode} {k : Nat}
+    (h : (DNode.inner s f m ks).height ≤ k + 1) : heightL ks ≤ k := by
+  simp only [DNode.height] at h
+  omega
+
+/-- operation `none` on a container / list instance: the children are handled by `ListRevSpec` -/
+theorem nodeRev_none_inner {S : Schema} (K : KeyOrder S) {s : Nat} {f : Flags} {m : List Meta} {ks : List DNode}
+    (IH : ListRevSpec S ks) {n : Nat} {hp : Bool} {inh : Option Op} {e : Option DNode}
+    (hh : (DNode.inner s f m ks).height ≤ n) (hge : ∀ x, e = some x → goodN S x = true)
+    (hex : exactE S inh e (.inner s f m ks) = true) (hop : effOp inh (.inner s f m ks) = some .none) :
+    NodeRevConcl S (.inner s f m ks) n hp inh e := by
+  obtain ⟨hd, hm, hk⟩ := exactE_base hex
+  obtain ⟨x, rfl, hne, hexk⟩ := exactE_none_inner hex hop
+  have hgx : goodN S x = true := hge x rfl
+  have hgxk : goodT S x.kids = true := goodN_kidsT hgx
+  have hxd : Dom S x := goodN_dom hgx
+  obtain ⟨k, rfl⟩ : ∃ k, n = k + 1 := ⟨n - 1, by have := height_pos (DNode.inner s f m ks); omega⟩
+  have hks : heightL ks ≤ k := height_inner_le hh
+  obtain ⟨R, hR, hRh, hRe, hRk, K1, hK1, hgK1, hkK1, hloc1, hback⟩ :=
+    IH k true (childInh inh (.inner s f m ks)) x.kids true hks hgxk hexk
+  have hdkD : dk S true ks = noKeys S ks := by simp [dk]
+  have hdkR : dk S true R = noKeys S R := by simp [dk]
+  rw [hdkD] at hK1 hloc1 hback
+  rw [hdkR, hdkD] at hRe
+  rw [hdkR] at hback
+  -- the reversed node
+  let c' : DNode := .inner s { dflt := f.dflt, new := true } m R
+  have hci : childInh inh (DNode.inner s { dflt := f.dflt, new := true } m (revDupL ks)) = childInh inh (.inner s f m ks) :=
+    childInh_congr_metas (d := .inner s f m ks) (d' := .inner s { dflt := f.dflt, new := true } m (revDupL ks)) rfl
+  have hopt : effOp inh (DNode.inner s { dflt := f.dflt, new := true } m (revDupL ks)) = some .none :=
+    (effOp_congr_metas (d := .inner s f m ks) (d' := .inner s { dflt := f.dflt, new := true } m (revDupL ks)) rfl).trans hop
+  have hrev : revNode S inh (revDup (.inner s f m ks)) = .ok c' := by
+    simp only [DNode.sid] at hk
+    simp only [revDup, revNode, hk, Bool.false_eq_true, ↓reduceIte, hopt, hci, hR]
+    rfl
+  have hopc' : effOp inh c' = some .none :=
+    (effOp_congr_metas (d := .inner s f m ks) (d' := c') rfl).trans hop
+  have hcic' : childInh inh c' = childInh inh (.inner s f m ks) :=
+    childInh_congr_metas (d := .inner s f m ks) (d' := c') rfl
+  have hmatch : ∀ y, matchP S c' y = matchP S (.inner s f m ks) y := fun y =>
+    matchP_of_same_keys (d := .inner s f m ks) (d' := c') hd.ndi rfl rfl hRk y
+  refine ⟨c', hrev, by simp [c', DNode.height, hRh], rfl, hmatch, ?_⟩
+  intro L hgL _ hl
+  have hxt : x.isTerm = false := by
+    have h1 := hxd.typed
+    have h2 := hd.typed
+    have hs : x.sid = s := matchP_sid (look_mem hl).2
+    simp only [DNode.isTerm, DNode.sid] at h2
+    rw [h1, hs, ← h2]
+  have hgx1 : goodN S (x.setKids K1) = true := by
+    rw [goodN_iff]
+    refine ⟨⟨by simpa using hxd.nuo, by simpa using hxd.ndi, by simpa using hxd.typed⟩, ?_⟩
+    rw [kids_setKids_inner hxt K1]
+    exact hgK1
+  obtain ⟨i, hi, hix, hg', hkL, hloc, hl'⟩ := fwd_set K hgL hd hk hl hgx1 (matchP_setKids K hxd hkK1 hxt)
+  refine ⟨L.set i (x.setKids K1), ?_, hg', hkL, hloc, ?_⟩
+  · rw [applyNode_succ_nuo hd.nuo, hop]
+    simp only [hi, hix, hxt, Bool.false_eq_true, ↓reduceIte, kids_inner, hne, hK1, Except.bind]
+  · intro X hgX _ hlX
+    rw [hl'] at hlX
+    have hk1 : (x.setKids K1).kids = K1 := kids_setKids_inner hxt K1
+    have hx1d : Dom S (x.setKids K1) := goodN_dom hgx1
+    have hx1t : (x.setKids K1).isTerm = false := by simpa using hxt
+    obtain ⟨K2, hK2, hgK2, hkK2, hloc2, hres⟩ := hback K1 hgK1 hkK1 (fun _ _ => rfl)
+    -- the children are back (up to normN)
+    have hnorm : normL K2 = normL x.kids := by
+      apply normL_eq_of_look K (goodT_goodL hgK2) (goodT_goodL hgxk)
+      intro q hq
+      by_cases hex2 : ∃ c ∈ noKeys S ks, matchP S c q = true
+      · obtain ⟨c, hc, hcq⟩ := hex2
+        have hcd : Dom S c := (exactE_base (exactK_mem true ks hexk c (by rw [hdkD]; exact hc)).1).1
+        rw [← look_congr K (goodT_goodL hgK2) hcd hq hcq, ← look_congr K (goodT_goodL hgxk) hcd hq hcq]
+        exact hres c hc
+      · have hall : ∀ c ∈ noKeys S ks, matchP S c q = false := by
+          intro c hc
+          cases h : matchP S c q
+          · rfl
+          · exact absurd ⟨c, hc, h⟩ hex2
+        rw [hloc2 q hq hall, hloc1 q hq hall]
+    have hgx2 : goodN S ((x.setKids K1).setKids K2) = true := by
+      rw [goodN_iff]
+      refine ⟨⟨by simpa using hxd.nuo, by simpa using hxd.ndi, by simpa using hxd.typed⟩, ?_⟩
+      rw [kids_setKids_inner hx1t K2]
+      exact hgK2
+    obtain ⟨j, hj, hjx, hgX', hkX, hlocX, hlX'⟩ := fwd_set K hgX hd hk hlX hgx2
+      (matchP_setKids K hx1d (by rw [hk1]; exact hkK2) hx1t)
+    refine ⟨X.set j ((x.setKids K1).setKids K2), ?_, hgX', hkX, hlocX, ?_⟩
+    · have hneR : (noKeys S R).isEmpty = false := by rw [hRe]; exact hne
+      have hnuo' : S.isUserOrd c'.sid = false := hd.nuo
+      rw [applyNode_succ_nuo hnuo', hopc']
+      simp only [findForApply_congr_fun hmatch, hj, hjx, hx1t, Bool.false_eq_true, ↓reduceIte, hcic', hk1]
+      simp only [c', kids_inner, hneR, Bool.false_eq_true, ↓reduceIte, hK2, Except.bind]
+    · rw [hlX']
+      simp only [Option.map_some, Option.some.injEq]
+      have h1 : normN ((x.setKids K1).setKids K2) = normN (x.setKids K2) := by
+        cases x with
+        | term => simp [DNode.isTerm] at hxt
+        | inner => rfl
+      rw [h1]
+      exact normN_setKids_inner hxt hnorm
+
 end LyModel.Diff
